@@ -532,6 +532,11 @@ impl Memfs {
                 dst_root.mash(src.path().trim_prefix(src_root.path()))
             };
 
+            // Nothing to do when an entry would be copied onto itself
+            if src.path() == dst_path {
+                continue;
+            }
+
             // Recreate links if were not following them
             if !cp.follow && src.is_symlink() {
                 // Copying into a directory might require creating it first
